@@ -115,6 +115,7 @@ def extract():
     # (method, callee, explicit type argument or the literal config argument).
     executor = read("kcl-ezpz/src/textual/executor.rs")
     methods = []
+    bodies = []
     for name in ["solve_no_metadata", "solve_no_metadata_inner", "solve", "solve_with_config_analysis",
                  "solve_with_config", "solve_with_config_inner"]:
         m = re.search(r"\bfn\s+" + name + r"\s*(?:<[^>]*>)?\s*\(", executor)
@@ -136,7 +137,26 @@ def extract():
         callee, targ, cargs = calls[0]
         arg = targ if targ else ("Default::default()" if cargs.startswith("Default::default(") else "")
         methods.append((name, callee, arg))
+        # the whole body, whitespace and comments removed: arguments, the configuration passed on,
+        # anything done before or after the call.  The five short methods are kept verbatim, the long
+        # one (`solve_with_config_inner`: sizes, the call, the labelling) as a SHA-256.
+        nb = re.sub(r"//[^\n]*", "", body)
+        nb = re.sub(r"\s+", "", nb)
+        if name == "solve_with_config_inner":
+            import hashlib
+            nb = "sha256:" + hashlib.sha256(nb.encode()).hexdigest()
+        if '"' in nb or "\\" in nb:
+            raise ExtractError(f"executor.rs: fn {name}: body contains a quote or backslash")
+        bodies.append((name, nb))
     c["TEXT_METHODS"] = methods
+    c["TEXT_METHOD_BODIES"] = bodies
+    # the priority `to_constraint_system` gives every request
+    pr = one(r"let\s+priority\s*=\s*(\d+)\s*;", executor, "executor.rs: let priority = <n>;")
+    if not re.search(r"ConstraintRequest::new\(\s*\w+\s*,\s*priority\s*\)", executor):
+        raise ExtractError("executor.rs: ConstraintRequest::new(<c>, priority)")
+    if len(re.findall(r"ConstraintRequest::(?:new|highest_priority)\s*\(", executor.split("#[cfg(feature = \"verif-hooks\")]")[0])) != 1:
+        raise ExtractError("executor.rs: expected exactly one place where requests are constructed")
+    c["TEXT_PRIORITY"] = pr
     return c
 
 def render(c):
@@ -160,6 +180,10 @@ def render(c):
     L.append("/-- Call structure of the text front-end's solve methods: (method, the one solve function it")
     L.append("calls, explicit type argument / literal config argument). -/")
     L.append("def TEXT_METHODS : List (String × String × String) := [" + ", ".join(f'("{a}", "{b}", "{d}")' for a, b, d in c["TEXT_METHODS"]) + "]")
+    L.append("/-- The bodies of those methods with whitespace and comments removed (the long one as a SHA-256). -/")
+    L.append("def TEXT_METHOD_BODIES : List (String × String) := [" + ", ".join(f'("{a}", "{b}")' for a, b in c["TEXT_METHOD_BODIES"]) + "]")
+    L.append("/-- The priority `to_constraint_system` gives every request (`let priority = …;`). -/")
+    L.append(f"def TEXT_PRIORITY : Nat := {int(c['TEXT_PRIORITY'])}")
     L.append("")
     L.append("end Ezpz.Gen")
     return "\n".join(L) + "\n"
